@@ -120,6 +120,9 @@ class UnitStr(Contract):
         track_unit(it, "u", a.self)
 
     def result(self, it, a):
+        t = S.ustr(a.self)
+        if z3.is_string_value(t):
+            return t.as_string()
         return it.fresh_str("unit_str")
 
     def ensures(self, it, a, r, old):
@@ -138,6 +141,9 @@ class UnitRepr(Contract):
         return {"self": make_unit(it, "u")}
 
     def result(self, it, a):
+        t = S.urepr(a.self)
+        if z3.is_string_value(t):
+            return t.as_string()
         return it.fresh_str("unit_repr")
 
     def ensures(self, it, a, r, old):
